@@ -30,6 +30,7 @@ pub const F_NO_PANIC: u8 = 13; // nothing but Kani's built-in panic/bounds check
 pub const F_MAX_STEP: u8 = 14; // every callback interval <= max_step (last may stretch 1%)  (refuter)
 pub const F_FIRST_STEP: u8 = 15; // first trial's second stage at x0 + c2*h0*dir
 pub const F_XOUT_AS_CONTINUE: u8 = 16;
+pub const F_GUARD: u8 = 17; // a step far below the resolution of x ends the run with a non-success status at once
 
 pub struct Sh {
     pub mode: u8,
@@ -132,6 +133,25 @@ impl<'a> IVP for Nd<'a> {
                 }
             }
             F_TIME_SPAN => assert!(s.in_span(x), "ode time inside the span (+-4ulp)"),
+            F_REJECT_SHRINKS => {
+                if c == 1 {
+                    // stage 2 of the first trial: x0 + c2*h1
+                    s.trial_first_t.set(x - s.x0);
+                }
+                if c == s.stages + 1 {
+                    // first stage evaluation of the second trial
+                    if s.cbs.get() == 1 {
+                        // the first trial was rejected (no callback since the initial one): the step must have shrunk.
+                        // NaN/inf error norms included: a NaN step size fails every comparison below.
+                        let t1 = s.trial_first_t.get();
+                        let t2 = x - s.x0;
+                        assert!(t2.abs() <= 0.95 * t1.abs() * (1.0 + 8.0 * f64::EPSILON), "a rejected trial shrinks the step (also with a non-finite error norm)");
+                        assert!(t2 * s.dir > 0.0, "the retried step still points toward xend");
+                        judged();
+                    }
+                    kani::assume(false);
+                }
+            }
             F_FIRST_STEP => {
                 if c == 1 {
                     // second ode call of the run = stage 2 of the first trial
@@ -359,6 +379,11 @@ pub fn judge_at_return(m: u8, sh: &Sh, cfg: &Cfg, r: &Result<IntegrationResult, 
             if sh.interrupted.get() {
                 assert!(res.status == Status::UserInterrupt, "Interrupt => UserInterrupt");
             }
+        }
+        F_GUARD => {
+            assert!(res.status != Status::Success, "a step below the resolution of x cannot succeed");
+            assert!(sh.cbs.get() <= 1, "no step is accepted below the resolution of x");
+            judged();
         }
         F_BUDGET => {
             // a solver may or may not count the trial in flight: m+2 callbacks incl. the initial one at most
